@@ -1,6 +1,6 @@
-(* C03 — Canonical form depends only on the dataset, not on labels or order: the structural half.
+(* C03 — Canonical form depends only on the dataset, not on labels or order.
    For every hash function and every dataset on which the algorithm finishes within its work limits. *)
-From RK Require Import Base BaseFacts Canon CanonProofs.
+From RK Require Import Base BaseFacts Canon CanonProofs CanonInvariance.
 From Coq Require Import Permutation Sorted.
 
 (* the issued identifiers are c14n0, c14n1, ... in issue order, every blank node of the dataset has one; the lines
@@ -24,16 +24,58 @@ Print Assumptions C03_issued_injective.
 Theorem C03_outcomes : forall H qs, match canonicalize H qs with COk _ _ | CErrPerm | CErrDepth | CFuel => True end.
 Proof. intros H qs. destruct (canonicalize H qs); exact I. Qed.
 
-(* NOT PROVED (stated only): invariance under blank node renaming and quad order. It is the correctness of RDFC-1.0
-   itself modulo hash collisions; it is decided by exploration (isomorphic copies of generated datasets). *)
+(* ---------- invariance under blank node renaming and quad order ---------- *)
+Definition renamed (f : bytes -> bytes) (q : cquad) : cquad :=
+  CQ (match q_s q with CB l => CB (f l) | x => x end) (q_p q)
+     (match q_o q with CB l => CB (f l) | x => x end)
+     (match q_g q with Some (CB l) => Some (CB (f l)) | x => x end).
+
+(* 4.6: the first-degree hash of a blank node is the same in every relabelled, reordered copy of the dataset
+   (every hash function, every dataset) *)
+Theorem C03_first_degree_invariant : forall H f qs qs' n,
+  (forall a b, f a = f b -> a = b) -> Permutation qs' (map (renamed f) qs) ->
+  hash_first_degree H qs' (f n) = hash_first_degree H qs n.
+Proof.
+  intros H f qs qs' n Hf P. apply hash_first_degree_invariant; [exact Hf|].
+  erewrite map_ext; [exact P|]. intros q. apply ren_spelled.
+Qed.
+Print Assumptions C03_first_degree_invariant.
+
+(* datasets in which the first-degree hashes tell all blank nodes apart (the N-degree step 5 has nothing to do):
+   the algorithm succeeds, and every relabelled and reordered copy gets the same canonical document, with
+   corresponding identifiers — for every hash function *)
+Theorem C03_simple_invariant_partial : forall H f qs qs',
+  (forall a b, f a = f b -> a = b) ->
+  NoDup (map (hash_first_degree H qs) (bnodes qs)) ->
+  Permutation qs' (map (renamed f) qs) ->
+  exists lines c lines' c',
+    canonicalize H qs = COk lines c /\ canonicalize H qs' = COk lines' c' /\
+    map snd lines = map snd lines' /\ (forall l, lookup c' (f l) = lookup c l).
+Proof.
+  intros H f qs qs' Hf Hs P. apply (canon_simple_invariant H f Hf qs qs' Hs).
+  erewrite map_ext; [exact P|]. intros q. apply ren_spelled.
+Qed.
+Print Assumptions C03_simple_invariant_partial.
+
+(* NOT PROVED (stated only): the same for datasets which need the N-degree step. As written, for every function H,
+   it is not even true (a constant H makes the result depend on the input order); it is the correctness of RDFC-1.0
+   itself for a collision-free hash, and is decided by exploration (isomorphic copies of generated datasets). *)
 Definition C03_iso_invariance_statement : Prop :=
   forall H (qs qs' : list cquad) lines lines' c c',
     (* qs' is qs with blank nodes renamed one-to-one and quads reordered *)
-    (exists f, (forall a b, f a = f b -> a = b) /\
-       Permutation qs' (map (fun q => CQ (match q_s q with CB l => CB (f l) | x => x end) (q_p q)
-                                         (match q_o q with CB l => CB (f l) | x => x end)
-                                         (match q_g q with Some (CB l) => Some (CB (f l)) | x => x end)) qs)) ->
+    (exists f, (forall a b, f a = f b -> a = b) /\ Permutation qs' (map (renamed f) qs)) ->
     canonicalize H qs = COk lines c -> canonicalize H qs' = COk lines' c' -> map snd lines = map snd lines'.
+
+(* non-vacuity of the premise of C03_simple_invariant_partial: the dataset of C03_example under FNV-1a *)
+Example C03_simple_example :
+  let qs := [CQ (CB (s2b "x")) (s2b "<p>") (CB (s2b "y")) None; CQ (CB (s2b "y")) (s2b "<p>") (CB (s2b "x")) None; CQ (CB (s2b "y")) (s2b "<q>") (CT (s2b "<o>")) None] in
+  length (bnodes qs) = 2 /\ NoDup (map (hash_first_degree fnv_hex qs) (bnodes qs)).
+Proof.
+  split; [vm_compute; reflexivity|].
+  match goal with |- NoDup ?l => let v := eval vm_compute in l in change (NoDup v) end.
+  constructor; [|constructor; [intros []|constructor]].
+  intros [E|[]]. revert E. vm_compute. discriminate.
+Qed.
 
 (* non-vacuity: a two-cycle with a marked node, under FNV-1a *)
 Example C03_example :
